@@ -175,6 +175,20 @@ func decodeStringPriors(w []byte) (string, string, string) {
 			}
 		}
 	}
+	// two successive calls through one scratch buffer: what the first call stored must survive
+	// the second call (successful or not)
+	if rerr == nil {
+		for _, second := range [][]byte{w, []byte(`"` + "\\" + `tzzzzzzzzzzzzzzzzzzzzzzzzzzzzzzzz"`), []byte(`"` + "\\" + `tq`), []byte(`"x"`)} {
+			var t1, t2 string
+			buf := make([]byte, 0, 64)
+			rjson.DecodeString(w, &t1, &buf)
+			keep := string(append([]byte(nil), t1...))
+			rjson.DecodeString(second, &t2, &buf)
+			if t1 != keep {
+				return fmt.Sprintf("DecodeString/earlier-target-changed-by-later-call/second=%q", second), fmt.Sprintf("%q", keep), fmt.Sprintf("%q", t1)
+			}
+		}
+	}
 	return "", "", ""
 }
 
